@@ -59,13 +59,11 @@ func semCfg() *mrogen.ProgCfg {
 		// known_findings.json); the generator stays inside the envelope
 		// "stages mapped in the top pipeline over inputs, literals or
 		// direct stage outputs".
-		// Since the defects met first with mapped pipelines are listed one
-		// by one (and excluded one by one above), pipelines that contain
-		// no map call are mapped too - in the top pipeline, over inputs,
-		// literals and direct stage outputs (no chained map calls).
-		c.MapLevel = 2
+		// (VERIF_LEVEL=5t / 6t explore mapped pipelines: the defects met
+		// there first are listed one by one and excluded above, but the
+		// ground behind them is not firm enough for a registered check.)
+		c.MapLevel = 1
 		c.MapOnlyInTop = true
-		c.NoChainedMaps = true
 	}
 	switch os.Getenv("VERIF_LEVEL") {
 	case "0":
@@ -84,6 +82,12 @@ func semCfg() *mrogen.ProgCfg {
 		c.MapLevel = 2
 		c.MapOnlyInTop = true
 		c.NoChainedMaps = true
+	case "6t":
+		c.MapLevel = 2
+		c.MapOnlyInTop = true
+		c.NoChainedMaps = true
+		c.StaticPipelineMaps = true
+		c.SplitFlags = true
 	case "3":
 		c.MapLevel = 1
 	case "4":
